@@ -35,7 +35,7 @@ ASSUMPTIONS = ["pint's conversion factors are the reference for unit conversion"
 BUDGET = {"quick": dict(examples=1200, wall_guard_s=600), "thorough": dict(examples=25000, wall_guard_s=3000)}
 
 UNITS = {
-    "dimensionless": ["dimensionless", "kB", "MB", "GB", "TB"],
+    "dimensionless": ["dimensionless", "kB", "MB", "GB", "TB", "percent", "hour/day", "ppm", "GB/TB"],
     "time": ["s", "min", "hour", "day", "year"],
     "power": ["W", "kW", "mW"],
     "energy": ["kWh", "Wh", "J"],
@@ -50,8 +50,10 @@ RTOL = 1e-12
 
 
 def mags():
+    # besides ordinary values: tiny positive ones and integers +/- a few 1e-9 (ceil must not round them down)
     return st.one_of(st.integers(-50, 1000).map(float), st.integers(-400, 4000).map(lambda k: k / 8.0),
-                     st.sampled_from([0.0, 1.0, 0.1, 0.3, 33.3, 1e-3, 1e6]))
+                     st.sampled_from([0.0, 1.0, 0.1, 0.3, 33.3, 1e-3, 1e6, 4e-11, 3e-9, 1 + 3e-9, 2 - 3e-9,
+                                      500 + 4e-6, 7 + 2e-8]))
 
 
 @st.composite
@@ -366,7 +368,12 @@ def check(c, ctx):
                 exp, res = ("hourly", dim, {k: -x for k, x in vals.items()}, ra[3]), -a
             elif h == "ceil":
                 # ceil acts on the magnitude in the series' own unit
-                exp = ("hourly", dim, {k: math.ceil(v) * f for k, v in
+                def ref_ceil(v):
+                    r = round(v)
+                    # within 1e-9 (relative) of an integer the value counts as that integer (conversion noise);
+                    # anything else is rounded up
+                    return float(r) if abs(v - r) <= 1e-9 * abs(r) else float(math.ceil(v))
+                exp = ("hourly", dim, {k: ref_ceil(v) * f for k, v in
                                        zip(sorted(vals), kept_values(c["a"]))}, ra[3])
                 res = a.ceil()
             elif h == "shift":
